@@ -63,14 +63,13 @@ def guarded_append(prog, cd, rep):
             exc = pe.value.func if isinstance(pe.value, ast.Call) else pe.value
             en = norm(exc) if exc is not None else ""
             fl = facts.flat_facts(pe.guards)
-            # the refusing fact is the last one on the path
-            if fl:
-                t, pol = fl[-1]
-                tf, lf = type_fact(t, pol), length_fact(t, pol)
-                if tf and not tf[1]:
-                    type_exc.append((en, pe.node))
-                if lf and not lf[2]:
-                    len_exc.append((en, pe.node))
+            # the refusing fact: a failed type test, else a failed length test, on the path
+            tfs_ = [x for x in (type_fact(t, pol) for t, pol in fl) if x]
+            lfs_ = [x for x in (length_fact(t, pol) for t, pol in fl) if x]
+            if any(not x[1] for x in tfs_):
+                type_exc.append((en, pe.node))
+            elif any(not x[2] for x in lfs_):
+                len_exc.append((en, pe.node))
             if facts.self_mutations(pe.effects, sn):
                 rep.fail("guarded-append", mod, fq, pe.node, "the block is modified before the item has passed both checks: a refusal leaves it changed")
         n_app = 0
